@@ -302,6 +302,10 @@ def gen_tick(rng, run, bad=None):
         cs = [(run.cid(c), pi) for pi, p in enumerate(ex.pools) for c in p.suspending_containers]
         if cs:
             tick['susp'].append(rng.choice(cs))
+    elif bad == 'susp-badpool':
+        cs = [run.cid(c) for p in ex.pools for c in p.active_containers]
+        cid = rng.choice(cs) if cs else rng.randrange(5)
+        tick['susp'] = [(cid, rng.choice([-1, -r['npools'], r['npools'], r['npools'] + 2]))]
     elif bad == 'susp-wrongpool' and r['npools'] > 1:
         cs = [(run.cid(c), (pi + 1) % r['npools']) for pi, p in enumerate(ex.pools) for c in p.active_containers
               if c.can_suspend_container()]
@@ -352,7 +356,7 @@ def gen_tick(rng, run, bad=None):
         elif bad == 'asg-ram+':
             a[2] = ex.pools[pool].avail_ram_pool - sum(x[2] for x in tick['asg'][:-1] if x[4] == pool) + 0.125
         elif bad == 'asg-pool':
-            a[4] = rng.choice([-1, r['npools'], r['npools'] + 3])
+            a[4] = rng.choice([-1, -2, -r['npools'], -r['npools'] - 1, r['npools'], r['npools'] + 3])
         elif bad == 'asg-empty':
             a[0] = []
         elif bad == 'asg-cpu0':
@@ -378,17 +382,17 @@ def gen_tick(rng, run, bad=None):
     return tick
 
 
-BAD_KINDS = ['susp-mid', 'susp-dup', 'susp-unknown', 'susp-suspending', 'susp-wrongpool', 'asg-cpu+1', 'asg-ram+',
+BAD_KINDS = ['susp-mid', 'susp-dup', 'susp-unknown', 'susp-suspending', 'susp-wrongpool', 'susp-badpool', 'asg-cpu+1', 'asg-ram+',
              'asg-pool', 'asg-empty', 'asg-cpu0', 'asg-ram0', 'asg-busy', 'asg-parent', 'asg-order', 'asg-two']
 
 
-def gen_history(rng, gen='G-exec', overcommit=None, max_ticks=None, p_bad=0.3):
+def gen_history(rng, gen='G-exec', overcommit=None, max_ticks=None, p_bad=0.3, bad_kinds=None):
     cfg = gen_config(rng, overcommit)
     cfg['gen'] = gen
     run = ExecRun(cfg)
     n = max_ticks or rng.randint(15, 70)
     bad_at = rng.randrange(3, n) if rng.random() < p_bad else None
-    bad_kind = rng.choice(BAD_KINDS)
+    bad_kind = rng.choice(bad_kinds or BAD_KINDS)
     idle = 0
     for i in range(n):
         t = gen_tick(rng, run, bad_kind if i == bad_at else None)
@@ -401,4 +405,41 @@ def gen_history(rng, gen='G-exec', overcommit=None, max_ticks=None, p_bad=0.3):
         if idle > 3 and (bad_at is None or i > bad_at):
             break
     cfg['bad'] = bad_kind if bad_at is not None else None
+    return cfg, run
+
+
+def gen_twins(rng, gen='G-exec-twins'):
+    """several identical multi-operator containers started in the same tick on one pool, so that they reach
+    operator boundaries together, are suspended in the same tick and finish suspending in the same tick"""
+    tps = rng.choice([1, 2, 4, 10])
+    n = rng.randint(2, 4)
+    nops = rng.randint(2, 3)
+    lens = [rng.randint(1, 3) for _ in range(nops)]
+    ram = rng.choice([1, 2, 8, 20, 40])
+    pipes = [(3, [[j - 1] if j else [] for j in range(nops)]) for _ in range(n)]
+    segs = [[[dict(baseline_cpu_seconds=float(L) / tps, cpu_scaling='const', storage_read_gb=0.0, memory_gb=0.5)]
+             for L in lens] for _ in range(n)]
+    cfg = dict(gen=gen, tps=tps, over=0, multi=1, npools=rng.choice([1, 2]), cpu=16, ram=256, pipes=pipes, segs=segs,
+               ticks=[], bad=None)
+    run = ExecRun(cfg)
+    t0 = dict(susp=[], asg=[(list(range(k * nops, (k + 1) * nops)), 1, ram, 3, 0) for k in range(n)])
+    cfg['ticks'].append(t0)
+    run.step(t0)
+    for i in range(1, 60):
+        t = dict(susp=[], asg=[])
+        for pi, p in enumerate(run.ex.pools):
+            cs = [c for c in p.active_containers if c.can_suspend_container()]
+            if cs and rng.random() < 0.7:
+                t['susp'] += [(run.cid(c), pi) for c in cs]
+        st = run.w.states()
+        if rng.random() < 0.3:
+            for k in range(n):
+                ops = [o for o in range(k * nops, (k + 1) * nops) if st[o] == 0]
+                busy = any(st[o] in (1, 2, 3) for o in range(k * nops, (k + 1) * nops))
+                if ops and not busy and len(ops) < nops:
+                    t['asg'].append((ops, 1, ram, 3, 0))
+        cfg['ticks'].append(t)
+        ent = run.step(t)
+        if ent['err'] or all(x in (4, 5) for x in run.w.states()):
+            break
     return cfg, run
